@@ -261,8 +261,8 @@ func (in *Interp) runFrame(fr *frame) {
 		}
 		r := recover()
 		switch r.(type) {
-		case unsupported, pathEnd, internalAbort:
-			panic(r) // engine control flow: not visible to the program
+		case unsupported, pathEnd, internalAbort, killSignal:
+			panic(r) // engine control flow: not visible to the program (a kill runs no deferred calls)
 		}
 		if s, ok := r.(string); ok {
 			panic(unsupported{"engine error: " + s + in.where(fr, 0)})
@@ -330,7 +330,7 @@ func (fr *frame) runDefer(d *deferred) {
 		if !ok {
 			r := recover()
 			switch r.(type) {
-			case unsupported, pathEnd, internalAbort:
+			case unsupported, pathEnd, internalAbort, killSignal:
 				panic(r)
 			}
 			fr.panicking = true
